@@ -273,7 +273,17 @@ impl Run {
 
     pub fn violation(&mut self, v: Violation) {
         self.total_violating_cases += 1;
-        self.violations.entry(v.sig.clone()).or_insert(v);
+        // A blunt defect fails millions of generated cases with as many distinct signatures:
+        // keep every known-finding signature (bounded by the findings file) and the first
+        // MAX_STORED others; the rest is only counted (memory stays bounded).
+        const MAX_STORED: usize = 2000;
+        if self.violations.contains_key(&v.sig) {
+            return;
+        }
+        if self.violations.len() >= MAX_STORED && !self.is_known(&v.sig) {
+            return;
+        }
+        self.violations.insert(v.sig.clone(), v);
     }
 
     pub fn part(&mut self, name: &str, v: Value) {
